@@ -3,6 +3,7 @@ import RscelModel.Model.Conv
 import RscelModel.Model.WF
 import RscelModel.Driver.AstJson
 import RscelModel.Driver.C02Spec
+import RscelModel.Driver.SerdeWire
 open Rscel
 
 def handle (line : String) : String :=
@@ -57,6 +58,9 @@ def handle (line : String) : String :=
       | some (.code c, _) => wfDiag c
       | _ => "bad-request"
     else
+    match SerdeWire.handle cmd args with
+    | some r => r
+    | none =>
     match Wire.handleValOp cmd args with
     | some r => r
     | none => "bad-request"
